@@ -185,6 +185,15 @@ def run(facts, rep, tier, ctx):
     for w9 in (ws, wa):
         if w9.present():
             _c05k3.is_kind_rules(facts, _c05k3._P5(rep if not w9.asyncw else c10._Prefixed(rep, "A"), "R03.9k"), w9, D3)
+    from . import c06 as _c06f3, c19 as _c19s
+    _c06f3.accessor_rules(facts, _c05k3._P5(rep, "R03.9f"), D3)
+    # R03.10 a time setter re-times an entry that is there and does nothing else: "touch" semantics (creating the entry when it is
+    # missing) puts a file below whatever the parent happens to be — C19 R19.1
+    scr10 = Report("s")
+    _c19s.run(facts, scr10, "quick", ctx)
+    for o in scr10.obligations:
+        if o["rule"] in ("R19.1", "A/R19.1"):
+            rep.ob(o["rule"].replace("R19.1", "R03.10"), o["fn"], o["key"].split("|")[2], o["ok"], o["detail"], o["loc"])
     # R03.8 on disk the tree is well-formed because the OS keeps it so — as long as the observers describe what the OS means: the
     # physical metadata follows links like exists/read_dir/create_dir do (an lstat makes a linked, non-empty directory "a file")
     from .. import physrules as _ph
